@@ -274,7 +274,7 @@ func init() {
 			h := &hookCounter{stop: b.s.int1("hookstop", 0)}
 			args := []interface{}{bfgs.MaxIterations{Value: b.s.int1("iter", 5)}}
 			if b.bit(0) {
-				H := mkMat(b.s.Kind, n, n, b.s.vals("Hessian"))
+				H := b.inMat(b.s.Kind, n, n, "Hessian")
 				b.mat("Hessian.Value", "input", H)
 				args = append(args, bfgs.Hessian{Value: H})
 			}
@@ -311,7 +311,7 @@ func init() {
 		gen:    func(r *common.Rng, mask int) *Spec { return genBlahut(r, 0, 1, 2) },
 		build: func(b *bld) {
 			n, m, k := b.s.N, b.s.M, b.s.Kind
-			ch := mkMat(k, n, m, b.s.vals("channel"))
+			ch := b.inMat(k, n, m, "channel")
 			p := mkVec(k, b.s.vals("p_init"))
 			b.mat("channel", "input", ch)
 			b.vec("p_init", "input", p)
